@@ -495,6 +495,11 @@ def build_instance_tree(
                         vmod_arg.value.modifications = [el_arg]
                         sym_mod.arguments.append(vmod_arg)
                     else:
+                        # Nested modifications are written in the same class as
+                        # the modification they are nested in.
+                        for nested_arg in el_arg.arguments:
+                            if nested_arg.scope is None:
+                                nested_arg.scope = arg.scope
                         sym_mod.arguments.extend(el_arg.arguments)
 
             if sym.class_modification:
@@ -548,6 +553,9 @@ def build_instance_tree(
                             vmod_arg.value.modifications = [el_arg]
                             sym_mod.arguments.append(vmod_arg)
                         else:
+                            for nested_arg in el_arg.arguments:
+                                if nested_arg.scope is None:
+                                    nested_arg.scope = arg.scope
                             sym_mod.arguments.extend(el_arg.arguments)
                 else:
                     arg.value.component = arg.value.component.child[0]
